@@ -33,11 +33,17 @@ def _support(code, q):
     return {(x, y): q.operator((x, y)) for x in range(msx + 1) for y in range(msy + 1) if q.operator((x, y)) != 'I'}
 
 
+def c07_sizes(bound, tier):
+    """the square grid [3..bound]^2 (holds rows >= 2 cols and cols >= 2 rows as soon as bound >= 6) plus strips beyond it:
+    narrow side 3 or 4, long side bound+1 .. 14 (quick) / 18 (thorough), both orientations"""
+    return sizes(bound) + common.strips(range(MIN, 64), bound, 14 if tier == 'quick' else 18)
+
+
 def c07_cases(ctx, bound):
     from qecsim.models.rotatedplanar import RotatedPlanarCode
     rng = ctx.rng
-    for (R, C) in sizes(bound):
-        code = RotatedPlanarCode(R, C)
+
+    def one_size(code, R, C):
         tag = 'rotatedplanar {}x{}'.format(R, C)
         P = 'rotatedplanar '
         ctx.case(P + 'nkd {} {}'.format(R, C), '{} {} {}'.format(*code.n_k_d), meta={'tag': tag})
@@ -164,6 +170,11 @@ def c07_cases(ctx, bound):
                 if got != want:
                     ctx.monitor_fail('single-site error syndrome is not its adjacent opposite-type plaquettes',
                                      {'code': tag, 'site': [x, y], 'op': op})
+
+    grid = c07_sizes(bound, ctx.tier)
+    common.grid_report(ctx, NAME, grid)
+    for (R, C) in grid:
+        common.per_size(ctx, NAME, (R, C), lambda: RotatedPlanarCode(R, C), one_size)
     # constructor domain
     U = common.ctor_universe()
     for (a, ta), (b, tb) in itertools.product(U, U):
